@@ -951,3 +951,33 @@ func returnsErrOrNil(f *ssa.Function, d string) int {
 	}
 	return idx
 }
+
+// cbErrAtoms: the descriptions under which the error of the callback `label` is known inside f: the direct
+// description when f calls the callback itself, the helper call's result when f calls an unexported helper that
+// returns the callback's error. Falls back to the direct description.
+func (c *Ctx) cbErrAtoms(label, direct string, f *ssa.Function) []string {
+	var out []string
+	for _, es := range c.effSites(label, direct) {
+		if es.site.Parent() == f {
+			out = append(out, es.errDesc)
+		}
+	}
+	if len(out) == 0 {
+		out = []string{direct}
+	}
+	return out
+}
+
+// cbArgAt: argument i of a callback site as seen from the effective site: the argument itself, or — when it is a
+// parameter of a wrapping helper — the value the (single) caller passes for it.
+func (c *Ctx) cbArgAt(site ssa.Instruction, i int) ssa.Value {
+	cc := callCommon(site)
+	if cc == nil || i >= len(cc.Args) {
+		return nil
+	}
+	v := cc.Args[i]
+	if as := c.argsAtCallSites(v); len(as) == 1 {
+		return as[0]
+	}
+	return v
+}
